@@ -46,6 +46,7 @@ def run_shard(shard, tier, seed, wd, res):
                     s.op("%s.%s" % (fam, op), fe(a), fe(b))
                 s.op(fam + ".cmp", fe(a), fe(b))
                 s.op(fam + ".eq", fe(a), fe(b))
+                s.op(fam + "." + ("lt", "gt", "le", "ge", "pcmp", "max")[(a + b) % 6], fe(a), fe(b))
         # the same operations through the Field trait (generic code path), on a thinner grid
         B2 = B[::3]
         for a in B2:
@@ -99,6 +100,7 @@ def run_shard(shard, tier, seed, wd, res):
             s.op(rty + ".read_be", V.b(by + b"\xff\x01"))
             for b in RB:
                 s.op(rty + ".cmp", rp(a), rp(b))
+                s.op(rty + "." + ("lt", "gt", "pcmp")[(a + b) % 3], rp(a), rp(b))
                 if a + b <= top:
                     s.op(rty + ".add_nocarry", rp(a), rp(b))
                     s.op("T" + rty + ".add_nocarry", rp(a), rp(b))
